@@ -23,7 +23,7 @@ RULE = ("full in-memory stack; byte strings of EVERY length 0..3100 (covering th
 ASSUMPTIONS = ["payloads are published after the client's handshake (incl. its enableBLOB) has been processed",
                "known finding: a payload message longer than the junk threshold on a link whose threshold is enabled is dropped"]
 REQUIRED_EVENTS = ["sessions", "payloads_published", "payloads_uploaded", "payloads_verified", "no_payload_checks", "republished_same_object",
-                   "buffer_process_calls_guarded", "half_way_holds", "following_traffic_checks", "drains_that_waited_for_a_slow_peer", "snooping_client_blob_checks", "routed_messages_checked_for_mutation", "read_handler_backed_blobs_published"]
+                   "buffer_process_calls_guarded", "half_way_holds", "following_traffic_checks", "drains_that_waited_for_a_slow_peer", "snooping_client_blob_checks", "routed_messages_checked_for_mutation", "read_handler_backed_blobs_published", "sessions_where_definitions_arrive_between_the_two_connects"]
 
 FORMATS = [".fits", "", ".bin", ".é", ".fits.z", ".ÿ<&>"]
 FRAGS = ["1024", "1", "random"]
@@ -137,6 +137,21 @@ async def session(ctx, case):
             client = SingleClient(sess, policy, for_blobs)
             links = [client.link]
         else:
+            if (n + case["fmt"]) % 3 == 1:
+                # The BLOB connection takes a while to come up, and meanwhile somebody else (another client of the same server)
+                # asks for the properties: the definitions are broadcast and reach this client's control connection before its
+                # second connection exists.  It enabled BLOBs like any other Client and must receive them all the same.
+                import indi.message as M
+                sess.connect_delay["blob"] = [3, 10, 40][n % 3]
+                bystander = devmon.RecClient()
+                router.register_client(bystander)
+
+                async def ask():
+                    for _ in range(2):
+                        await asyncio.sleep(0)
+                    router.process_message(M.GetProperties(version="1.7"), sender=bystander)
+                asking = sess.loop.create_task(ask())
+                ctx.count("sessions_where_definitions_arrive_between_the_two_connects")
             client = await sess.make_client()
             links = list(client._vf_links)
         if await sess.quiesce() < 0:
